@@ -312,12 +312,12 @@ Fixpoint c_read (fuel : nat) (c : codec) (dest : gval) (bs : bytes) {struct c} :
       | _ => Panic
       end
   | CMap vc vz _ =>
-      if new_nil vc then Panic
-      else
+      (* valueCodec.New is called per entry, after the key has been read *)
       let go (kvs0 : list (bytes * gval)) :=
         obind (blocks false (fun acc b0 =>
                  obind (string_read b0) (fun k r =>
-                   obind (c_read fuel vc vz r) (fun v r' => Done (acc ++ [(k, v)]) r'))) fuel kvs0 bs)
+                   if new_nil vc then Panic
+                   else obind (c_read fuel vc vz r) (fun v r' => Done (acc ++ [(k, v)]) r'))) fuel kvs0 bs)
               (fun kvs r => Done (VMap kvs) r) in
       match dest with
       | VMap kvs0 => go kvs0
